@@ -43,6 +43,15 @@ def _divide_and_round(a: float, b: float) -> int:
     return q
 
 
+def _to_microseconds(delta: timedelta) -> int:
+    if isinstance(delta, Duration):
+        return delta._to_microseconds()
+
+    return (delta.days * SECONDS_PER_DAY + delta.seconds) * US_PER_SECOND + (
+        delta.microseconds
+    )
+
+
 class Duration(timedelta):
     """
     Replacement for the standard timedelta class.
@@ -395,7 +404,7 @@ class Duration(timedelta):
         usec = self._to_microseconds()
         if isinstance(other, timedelta):
             return cast(
-                int, usec // other._to_microseconds()  # type: ignore[attr-defined]
+                int, usec // _to_microseconds(other)
             )
 
         if isinstance(other, int):
@@ -422,7 +431,7 @@ class Duration(timedelta):
         usec = self._to_microseconds()
         if isinstance(other, timedelta):
             return cast(
-                float, usec / other._to_microseconds()  # type: ignore[attr-defined]
+                float, usec / _to_microseconds(other)
             )
 
         if isinstance(other, int):
@@ -449,7 +458,7 @@ class Duration(timedelta):
 
     def __mod__(self, other: timedelta) -> Self:
         if isinstance(other, timedelta):
-            r = self._to_microseconds() % other._to_microseconds()  # type: ignore[attr-defined] # noqa: E501
+            r = self._to_microseconds() % _to_microseconds(other)
 
             return self.__class__(0, 0, r)
 
@@ -459,7 +468,7 @@ class Duration(timedelta):
         if isinstance(other, timedelta):
             q, r = divmod(
                 self._to_microseconds(),
-                other._to_microseconds(),  # type: ignore[attr-defined]
+                _to_microseconds(other),
             )
 
             return q, self.__class__(0, 0, r)
